@@ -96,6 +96,8 @@ def as_operand(v):
     h = getattr(v, 'abs_operand', None)
     if h is not None:
         return h()
+    if type(v).__name__ == 'NanConst':
+        return ('sc', X.NAN, False)
     return None
 
 
